@@ -219,7 +219,7 @@ class Gen:
     def one(self):
         r, m = self.rng, self.m
         sp, fp = len(m.stack), m.fp
-        live = sp - fp
+        live = max(0, sp - fp)
         choices = [("p", 5)]
         if live > 0 or self.sloppy:
             choices += [("gl", 2), ("sl", 2), ("cap", 4)]
@@ -339,6 +339,12 @@ def minimise(line, still=None):
     (a process pair per candidate, as vlib.ddmin would do through `still`, costs minutes)."""
     size, mx, ops = split_line(line)
     cls = _classes([line])[0]
+    # shortest failing prefix first (one batch)
+    pre = _classes([mk_line(size, mx, ops[:k]) for k in range(1, len(ops))])
+    for k, r in enumerate(pre, 1):
+        if r == cls:
+            ops = ops[:k]
+            break
     chunk = max(1, len(ops) // 2)
     rounds = 0
     while chunk >= 1 and rounds < 60:
@@ -430,16 +436,27 @@ def classify(ctx, line, ans):
     ctx.stat("depth:%d" % min(4, mx))
 
 
-def run_machine(ctx, quick=1500, thorough=40000):
+def is_mine(replay_path):
+    """does this replay file hold a line of the `upv` domain?"""
+    try:
+        inp = json.load(open(replay_path)).get("input", {})
+    except (OSError, ValueError):
+        return False
+    return isinstance(inp, dict) and str(inp.get("line", "")).startswith("upv\t")
+
+
+def run_machine(ctx, quick=1500, thorough=120000):
     """Generates op sequences from ctx.rng, compares the real thread with the Lean model (vlib.correspond, which
     records the correspondence obligation), judges the thread's reads with the cell machine, and cross-checks the
     cell machine against its Lean twin `Elk.Upvalue.stepA` (second obligation)."""
     if ctx.replay:
-        inp = json.load(open(ctx.replay))["input"]
-        lines = [inp["line"]]
+        if not is_mine(ctx.replay):
+            return []
+        lines = [json.load(open(ctx.replay))["input"]["line"]]
     else:
         lines = vlib.corpus_lines("upv") + [gen_line(ctx.rng, ctx, not ctx.quick) for _ in range(ctx.n(quick, thorough))]
-    lines = search_failing_inputs(ctx, lines) + lines
+    if not ctx.replay:
+        lines = search_failing_inputs(ctx, lines) + lines
     res = vlib.correspond(ctx, lines, oracle=oracle, minimise=minimise, label="upvalue machine (vm.Thread vs Elk.Upvalue.CA)",
                           max_report=3)
     for ln, a, _ in res:
